@@ -3,7 +3,7 @@ import itertools
 import random
 
 from common import Recorder, guarded, main
-from gen import specs, build_tensor, spec_key, random_spec, build_fiber
+from gen import specs, build_tensor, spec_key, random_spec, build_fiber, scale_spec
 from spec.oracle import raw, spec_content, tensor_snapshot, is_fiber, content, unbox
 
 from fibertree import Fiber, Tensor, Payload
@@ -187,9 +187,28 @@ def run(tier, seed):
         ops = [rnd.choice(unis[depth]) for _ in range(rnd.randint(2, 6 if tier == "quick" else 10))]
         rec.case("random-history", (depth, spec_key(spec), repr(ops), default))
         run_history(rec, "random-history", depth, n, spec, ops, default)
+    # at scale: seeded random histories on fibers far outside the enumerated scope, start positions anywhere legal
+    kinds = [("read", None), ("ref_set", 2), ("ref_set", 0), ("ref_add", 1), ("ref_none", None), ("ref_mul", 0), ("ref_div", 2), ("ref_sub", 1),
+             ("read_noalloc", None), ("position", None), ("positionref", None)]
+    for _ in range(60 if tier == "quick" else 800):
+        spec, nn = scale_spec(rnd, vals=(0, 1, 2), count=rnd.choice([12, 30, 70]))
+        cs = sorted(spec)
+        ops = []
+        for _j in range(rnd.randint(2, 6)):
+            kind, arg = rnd.choice(kinds)
+            c = rnd.choice([rnd.choice(cs), rnd.choice(cs) + 1, rnd.randrange(nn)])
+            spc = rnd.choice([None, rnd.randrange(200), rnd.randrange(200)])
+            if kind in ("position", "positionref") and spc is None:
+                spc = 0
+            if kind in ("read_noalloc",):
+                spc = None
+            ops.append([kind, [min(c, nn - 1)], arg, spc])
+        default = rnd.choice([0, 0, 1])
+        rec.case("scale", (spec_key(spec), repr(ops), default))
+        run_history(rec, "scale", 1, nn, spec, ops, default)
     return rec.result("every fiber over 4 coordinates x every accessor op with every legal start_pos; every depth-2 tree over 2 coordinates x every op; "
                       "seeded random interleavings (length 2-6 quick / 2-10 thorough) at depth 1-3 with leaf default 0 or 1, against a dict oracle; "
-                      "tree + rank-list snapshot compared around every read")
+                      "tree + rank-list snapshot compared around every read; plus seeded random histories at scale (12-70 elements, any legal start_pos)")
 
 
 def replay(case):
